@@ -448,6 +448,13 @@ func runRegistrationCases(cfg Config, out *sink) {
 		{m("get"), m("get")}, // no segments at all: the root node's own maps
 	}
 	for _, seq := range seqs {
+		runRegistrationSequence(cfg, out, seq)
+	}
+}
+
+// runRegistrationSequence: one list of Register* calls against a fresh server — which of them panic
+func runRegistrationSequence(cfg Config, out *sink, seq []reg) {
+	{
 		spec := &srvSpec{regs: seq}
 		b := build(spec)
 		var parts []string
